@@ -436,6 +436,7 @@ type mview struct {
 	dv     bool
 	hook   bool
 	absent bool
+	props  map[string]jv // ordinary own properties (keys that are not canonical numeric strings)
 }
 
 func (v *mview) live() bool { return !v.buf.detached }
